@@ -171,4 +171,111 @@ theorem execGetIndex_ok (np : Bool) : StepSpec np execGetIndex := by
          fun _ s => ⌜Wrap (StepExc np s)⌝⟩
   all_goals vm_vc
 
+/-! ### opcodes that touch frames and handlers -/
+
+theorem frameOK_pushHandler {f : Frame} (hf : FrameOK f) (hfn : f.fn ≠ none) (h : Handler) (hsp : 0 ≤ h.sp) :
+    FrameOK { f with handlers := some (h :: f.handlers.getD []) } := by
+  constructor
+  · intro _; exact hfn
+  · intro hs hhs x hx
+    simp at hhs; subst hhs
+    rcases List.mem_cons.mp hx with hx | hx
+    · subst hx; exact hsp
+    · cases hh : f.handlers with
+      | none => simp [hh] at hx
+      | some l => simp [hh] at hx; exact hf.2 l hh x hx
+
+/-- a state that differs from a boundary state by an update `g` of the current frame -/
+theorem vinv_setCur {s0 t : State} (hv : VInv s0) (g : Frame → Frame)
+    (hfr : t.frames = s0.frames.modify s0.curFrame g) (hcur : t.curFrame = s0.curFrame)
+    (hsz : t.stack.size = s0.stack.size) (hg : FrameOK (g s0.frames[s0.curFrame]!)) : VInv t := by
+  simp only [VInv]; rw [hfr, hcur, hsz]; exact hv.modify _ _ hg
+
+theorem curFn_setCur {s0 t : State} (hv : VInv s0) (g : Frame → Frame)
+    (hfr : t.frames = s0.frames.modify s0.curFrame g) (hcur : t.curFrame = s0.curFrame)
+    (hfn : (g s0.frames[s0.curFrame]!).fn ≠ none) : curFn t ≠ none := by
+  simp only [curFn]; rw [hfr, hcur, get!_modify_self _ _ _ hv.lt_size]; exact hfn
+
+/-- the current frame -/
+abbrev curF (s : State) : Frame := s.frames[s.curFrame]!
+
+/-- the control part without the frames array -/
+def cpf (s : State) : CP := { cp s with frames := #[] }
+
+/-- `setCurFrame g` (an update of `*vm.curFrame`): allowed when the updated frame is still OK;
+    afterwards only the current frame differs, and it is `g` of the old one -/
+theorem setCurFrame_spec (g : Frame → Frame) : ∀ (c0 : CP),
+    ⦃fun s => ⌜c0 = cp s ∧ (VInv s ∧ FrameOK (g (curF s)))⌝⦄ setCurFrame g
+    ⦃post⟨fun _ s => ⌜VInv s ∧ cpf s = { c0 with frames := #[] } ∧ curF s = g (c0.frames[c0.curFrame]!)⌝,
+          fun _ _ => ⌜False⌝⟩⦄ := by
+  apply triple_of_fixed
+  intro s0 ⟨hv, hg⟩
+  mvcgen [setCurFrame, modS]
+  subst_vars
+  rename_i s t
+  rw [wrap_iff]
+  refine ⟨vinv_setCur hv g rfl rfl rfl hg, by simp +zetaDelta [cpf, cp], ?_⟩
+  show (s.frames.modify s.curFrame g)[s.curFrame]! = _
+  rw [get!_modify_self _ _ _ hv.lt_size]; rfl
+
+/-- `errHandlers.findFinally(upto)` only pops handlers of the current frame -/
+def FFPost (c0 : CP) (s : State) : Prop :=
+  VInv s ∧ cpf s = { c0 with frames := #[] } ∧ (curF s).fn = (c0.frames[c0.curFrame]!).fn
+
+macro "vm_fvc" : tactic => `(tactic| (
+  try simp only [wrap_iff, StepOk, StepExc, StepPre, VInvB, FFPost, VInv, curFn, curF, FailOk, FailExc] at *
+  intros
+  try simp only [cpf, cpx, cp, CP.mk.injEq] at *
+  try simp_all +zetaDelta [stackSize, fn_setLast, fn_popHandler]
+  try omega
+  try grind [fn_setLast, fn_popHandler, frameOK_setLast, frameOK_popHandler, frameOK_pushHandler, CInv.get!,
+    hasHandler_setLast, lastHandler_sp, hasHandler_of_last]))
+
+theorem execSetupTry_ok (np : Bool) : StepSpec np execSetupTry := by
+  apply triple_of_fixed'; intro s0 hpre
+  have sc := setCurFrame_spec
+  step_gen [execSetupTry, sc]
+  all_goals vm_fvc
+
+theorem execSetupFinally_ok (np : Bool) : StepSpec np execSetupFinally := by
+  apply triple_of_fixed'; intro s0 hpre
+  have sc := setCurFrame_spec
+  step_gen [execSetupFinally, sc]
+  all_goals vm_fvc
+
+theorem execSetupCatch_ok (np : Bool) : StepSpec np execSetupCatch := by
+  apply triple_of_fixed'; intro s0 hpre
+  have sc := setCurFrame_spec
+  step_gen [execSetupCatch, sc]
+  all_goals vm_fvc
+
+theorem findFinally_spec (fuel : Nat) : ∀ (upto : Int) (c0 : CP),
+    ⦃fun s => ⌜c0 = cp s ∧ VInv s⌝⦄ findFinally fuel upto
+    ⦃post⟨fun _ s => ⌜FFPost c0 s⌝, fun _ s => ⌜FFPost c0 s⌝⟩⦄ := by
+  induction fuel with
+  | zero =>
+    intro upto
+    apply triple_of_fixed; intro s0 hv
+    unfold findFinally
+    mvcgen [unsupported]
+    subst_vars; rw [wrap_iff]; exact ⟨hv, rfl, rfl⟩
+  | succ fuel ih =>
+    intro upto
+    apply triple_of_fixed; intro s0 hv
+    have sc := setCurFrame_spec
+    unfold findFinally
+    mvcgen [curFrame, getS, sc, ih]
+    all_goals subst_vars
+    all_goals (try simp only [wrap_iff, FFPost, VInv, curF] at *)
+    all_goals (try simp only [cpf, cp, CP.mk.injEq] at *)
+    all_goals (try (simp_all +zetaDelta [fn_popHandler]; done))
+    all_goals (try grind [fn_popHandler, frameOK_popHandler, CInv.get!])
+
+theorem execFinalizer_ok (np : Bool) : StepSpec np execFinalizer := by
+  apply triple_of_fixed'; intro s0 hpre
+  have sc := setCurFrame_spec
+  have ff := findFinally_spec
+  step_gen [execFinalizer, sc, ff]
+  all_goals (first | (vm_fvc; done) | trace_state)
+
 end UgoVerif.Proofs.VM
